@@ -105,6 +105,7 @@ template <class M>
 static Blob BlobMat(const M& m) {
   Blob b;
   b.shape = {static_cast<long>(m.rows()), static_cast<long>(m.cols())};
+  if (m.size() == 0) return b;  // (a garbage dimension next to a zero one must not make us loop)
   for (Eigen::Index j = 0; j < m.cols(); ++j)
     for (Eigen::Index i = 0; i < m.rows(); ++i) Put(b, m(i, j));
   return b;
